@@ -146,7 +146,7 @@ def _handler_classes(h: ast.ExceptHandler) -> set[str]:
     return {(attr_chain(t) or "?").split(".")[-1] for t in ts}
 
 
-def lookahead(ctx: Ctx, py: PyProgram) -> None:
+def lookahead(ctx: Ctx, py: PyProgram, rule: str = "C01.3/lookahead-isolation", why: str = "") -> None:
     it = py.func(isa.OPCODES_PY, "iter_decode")
     fu = py.func(isa.OPCODES_PY, "fusion")
     raises = _raise_classes(it)
@@ -172,11 +172,11 @@ def lookahead(ctx: Ctx, py: PyProgram) -> None:
             continue  # a failure of the first instruction is the caller's verdict for that instruction
         missing = sorted(r for r in raises if r not in handled and "BaseException" not in handled and "Exception" not in handled)
         if missing:
-            ctx.violation("C01.3/lookahead-isolation", key_of(isa.OPCODES_PY, "fusion", f"look-ahead next() handles {sorted(handled)}"),
+            ctx.violation(rule, key_of(isa.OPCODES_PY, "fusion", f"look-ahead next() handles {sorted(handled)}"),
                           f"fusion() pulls the *next* instruction to test for a prefix, but {missing} raised by iter_decode while decoding it escapes: "
-                          "a valid first instruction is rejected (hooks) or the emulator fetch raises, depending on the bytes after it (e.g. 00 56 04 00)",
+                          "a valid first instruction is rejected (hooks) or the emulator fetch raises, depending on the bytes after it (e.g. 00 56 04 00)" + (": " + why if why else ""),
                           f"{isa.OPCODES_PY}:{t.lineno}", raised=sorted(raises), handled=sorted(handled))
-    ctx.instance("C01.3/lookahead-isolation", "guarded next() pulls in fusion() vs the raise set of iter_decode", n, 2)
+    ctx.instance(rule, "guarded next() pulls in fusion() vs the raise set of iter_decode", n, 2)
     ctx.sample({"iter_decode_raises": sorted(raises), "fusion_lookahead_handles": sorted(set().union(*[_handler_classes(h) for t, tgt in pulls if t is not first_try for h in t.handlers]))})
 
 
